@@ -75,6 +75,8 @@ def _judge(ctx, mods, w, st, results, deadlock, extra_events=(), judge=True, ign
         if op.kw.get('silent'):
             ctx.check(not o.ok, tag + 'an open that the device never answers fails', detail=repr(o))
             continue
+        if op.kw.get('may_fail') and not o.ok:
+            continue      # e.g. an open that races with close(): it may fail, what it must not do is put a bad id on the wire
         if not o.ok:
             lids = _op_lids(st, op)
             k1 = [e for e in ctx.events if e.startswith('K1:') and any(('local %s)' % l) in e for l in lids)]
@@ -134,7 +136,9 @@ def _after_and_ids(ctx, w, st, shape):
     silent = getattr(st, 'silent_dests', set())
     closed_at = {}
     for p in st.dev.decoder.packets:
-        if p.cmd == b'OPEN':
+        if p.cmd == b'CNXN':
+            live = []         # a new connection: every stream of the previous one is gone
+        elif p.cmd == b'OPEN':
             for (j, x, dest) in live:
                 if dest.rstrip(b'\0') in silent:
                     continue
@@ -232,6 +236,9 @@ def h_async(ctx, mods, shape):
                 return Outcome(value=await dev.pull(op.path, op.dest, progress_callback=op._cb()))
             if op.name == 'push':
                 return Outcome(value=await dev.push(op.src, op.device_path, st_mode=op.st_mode, mtime=op.mtime))
+            if op.name == 'reconnect':
+                await dev.close()
+                return Outcome(value=await dev.connect())
             if op.name == 'open':
                 return Outcome(value=await dev._open(op.dest, None, op.kw.get('read_timeout', 2), None))
         except Exception as e:
